@@ -281,6 +281,10 @@ class AttachmentSet(dict):
         if value is None:
             del self[key]
             return
+        if key in super().keys():
+            # The attachment is replaced: Remove its current values
+            # from whatever is backing the attachment set.
+            self._update_attachment(key, None, None)
         super().__setitem__(
             key,
             AttachmentValueDict(key, value, update=lambda k, v: self._update_attachment(key, k, v))
